@@ -7,6 +7,7 @@ From Coq Require Import List NArith Bool Arith.
 From AMV Require Import Base.ListSet Model.Schema Model.Resolver Model.Machine
   Spec.C01 Spec.C05 Spec.C07.
 From AMV Require Proofs.C05C07Proofs.
+From AMV Require Proofs.C07Judged.
 Import ListNotations.
 
 (* (g) after a triggering transition the queue starts with the auto mutation
@@ -188,3 +189,69 @@ Theorem judged_nv_ok_nonvacuous :
   end.
 Proof. exact C05C07Proofs.judged_nv_ok_nonvacuous. Qed.
 Print Assumptions judged_nv_ok_nonvacuous.
+
+(* ------------------------------------------------------------------ *)
+(* the judged clause with vetoes (code 73) and the escaping panic      *)
+(* (NCrash, code 74): Proofs/C07Judged.v                               *)
+(* ------------------------------------------------------------------ *)
+
+(* no panic escapes a fault-free transition; exactly one record is appended *)
+Theorem no_crash_step : forall s mu s' r,
+  C05C07Proofs.good s -> NoDup (active s) -> run_tx s mu = (s', r) ->
+  crashed s' = crashed s /\ exists rec, txs s' = rec :: txs s.
+Proof. exact C07Judged.no_crash_step_lemma. Qed.
+Print Assumptions no_crash_step.
+
+(* [auto_called_ok s mu]: mu is an Add, not a check, and calls inactive Auto
+   states of the schema - what NewAutoMutation builds. Then the clause 73
+   holds for the record of the auto mutation, whatever the handlers veto *)
+Theorem judged_veto_step : forall s mu s' r rec,
+  C05C07Proofs.good s -> NoDup (active s) -> C05C07Proofs.parity s -> mu_auto mu = true ->
+  (mu_type mu = MAdd /\ mu_check mu = false /\
+   forall x, In x (mu_called mu) ->
+     x < length (sc s) /\ s_auto (sget (sc s) x) = true /\ ~ In x (active s)) ->
+  run_tx s mu = (s', r) -> txs s' = rec :: txs s ->
+  judged_codes (sc s) (topo s) (rev (hlog s')) rec = [].
+Proof. exact C07Judged.judged_veto_step_lemma. Qed.
+Print Assumptions judged_veto_step.
+
+(* on whole runs: any fuel, any schema, bindings, fault-free script, calls *)
+Theorem no_crash_fault_free : forall sch tp hl ex bs ql acts cs fuel,
+  C05C07Proofs.fault_free acts ->
+  tr_crashed (run fuel (init_st sch tp hl ex bs ql acts) cs) = false /\
+  tr_hung (run fuel (init_st sch tp hl ex bs ql acts) cs) = false.
+Proof. exact C07Judged.no_crash_fault_free_lemma. Qed.
+Print Assumptions no_crash_fault_free.
+
+Theorem judged_codes_run : forall sch tp hl ex bs ql acts cs fuel,
+  C05C07Proofs.fault_free acts ->
+  forall t, In t (tr_txs (run fuel (init_st sch tp hl ex bs ql acts) cs)) ->
+    judged_codes sch tp (tr_hlog (run fuel (init_st sch tp hl ex bs ql acts) cs)) t = [].
+Proof. exact C07Judged.judged_codes_run_lemma. Qed.
+Print Assumptions judged_codes_run.
+
+(* hence the whole of c07_codes (71, 72, 73, 74) when the fuel sufficed *)
+Theorem c07_codes_run : forall sch tp hl ex bs ql acts cs fuel,
+  C05C07Proofs.fault_free acts ->
+  tr_fuel_ok (run fuel (init_st sch tp hl ex bs ql acts) cs) = true ->
+  c07_codes sch tp hl (run fuel (init_st sch tp hl ex bs ql acts) cs) = [].
+Proof. exact C07Judged.c07_codes_run_lemma. Qed.
+Print Assumptions c07_codes_run.
+
+(* a veto inside an auto transition: BEnter returns false, C is activated *)
+Theorem judged_codes_run_nonvacuous :
+  let bs := [[HEnter 1; HEnter 2]] in
+  let tr := run 100 (init_st C05C07Proofs.ex_sch2 [] [] 3 bs 1000 [C05C07Proofs.ex_act false])
+                [C05C07Proofs.ex_add [0]] in
+  tr_fuel_ok tr = true /\ tr_crashed tr = false /\
+  match nth_error (tr_txs tr) 1 with
+  | Some t =>
+    tx_auto t = true /\ tx_called t = [1; 2] /\ tx_accepted t = true /\ tx_target t = [2; 0] /\
+    map (fun h => (hl_key h, hl_ret h)) (slice (tr_hlog tr) (tx_hfrom t) (tx_hto t))
+      = [(HEnter 1, false); (HEnter 2, true)] /\
+    judged_codes C05C07Proofs.ex_sch2 [] (tr_hlog tr) t = []
+  | None => False
+  end /\
+  c07_codes C05C07Proofs.ex_sch2 [] [] tr = [].
+Proof. exact C07Judged.judged_codes_run_nonvacuous. Qed.
+Print Assumptions judged_codes_run_nonvacuous.
